@@ -129,6 +129,17 @@ def run_c06(tier, seed):
                  sample=dict(filter_descending=fo, sed_descending=so, overlap_kind=kind, n_filter=nf, n_sed=ns) if t < 3 else None)
     _subset_small(rec, seed)
     _through_files(rec, seed, 2 if tier == 'quick' else 12)
+    # SED files on alternating wavelength grids (same size, same end points): every model must be convolved
+    # with the responses binned to ITS OWN grid
+    from . import pipe_props
+    for t in range(2 if tier == 'quick' else 10):
+        case = dict(seed=seed, tag='c07', pseed=int(rng.integers(1, 10 ** 6)), n_models=5 + t % 4, n_ap=1 + t % 2, n_wav=14 + 3 * t, wav_desc=bool(t % 2), f_desc=bool(t % 2),
+                    nf=5, n_filters=2, memmap=False, two_calls=False, fit=False, sorted_names_reversed=False, mixed_grids=True, postprocess_between=False)
+        try:
+            pipe_props.c07_one(rec, case)
+        except Exception as e:
+            rec.fail('mixed_grids_crash', 'raised %s: %s' % (type(e).__name__, e), case)
+        rec.case(key=('mixed-grids', t), nontrivial=True)
     return rec, REPLAY
 
 
@@ -227,4 +238,9 @@ def _through_files(rec, seed, count):
         rec.case(key=('files', t), nontrivial=True)
 
 
-REPLAY = {'c06': c06_one, 'c06-subset': c06_subset, 'c06-files': c06_files}
+def _c07(rec, case):
+    from . import pipe_props
+    return pipe_props.c07_one(rec, case)
+
+
+REPLAY = {'c06': c06_one, 'c06-subset': c06_subset, 'c06-files': c06_files, 'c07': _c07}
